@@ -173,7 +173,9 @@ func runRoute(t *testing.T, c spec.Case, e Em) {
 		id   uint32
 		want string
 		conn *grpc.ClientConn
+		lk   string
 	}
+	rawHandles := map[string]*vp.RawHandle{}
 	var conns []kept
 	listenerWant := map[string]string{} // accepting side + id -> answer of that listener's server (guarded by connsMu)
 	lastDial := map[string]time.Time{}  // accepting side + id -> when the last dial to that listener got its first answer
@@ -209,6 +211,38 @@ func runRoute(t *testing.T, c spec.Case, e Em) {
 				}
 				x, err := vp.MuxAccept(am, id, nonceA, it.Len)
 				o.PeerID, o.PeerNonce, o.PayloadOK, o.Extra, o.Err = x.PeerID, x.PeerNonce, x.PayloadOK, x.Extra, errStr(err)
+			} else if it.Raw || it.Reaccept {
+				lk := other(it.Dir) + fmt.Sprint(id)
+				var old *vp.RawHandle
+				if it.Reaccept {
+					connsMu.Lock()
+					old = rawHandles[lk]
+					// connections to the old listener end with it: they are no longer re-pinged
+					var keep []kept
+					for _, k := range conns {
+						if k.lk != lk {
+							keep = append(keep, k)
+						} else {
+							k.conn.Close()
+						}
+					}
+					conns = keep
+					connsMu.Unlock()
+					if old != nil {
+						old.CloseListener()
+					}
+				}
+				h := vp.GRPCAcceptRaw(ag, id, nonceA)
+				o.Err = errStr(h.Err)
+				if old != nil {
+					if it.DoubleClose {
+						old.CloseListenerAgain()
+					}
+					old.StopServer()
+				}
+				connsMu.Lock()
+				rawHandles[lk] = h
+				connsMu.Unlock()
 			} else {
 				h := vp.GRPCAcceptServe(ag, id, nonceA, time.Duration(it.SlowMs)*time.Millisecond)
 				connsMu.Lock()
@@ -248,7 +282,7 @@ func runRoute(t *testing.T, c spec.Case, e Em) {
 					} else {
 						listenerWant[other(it.Dir)+fmt.Sprint(id)] = want
 					}
-					conns = append(conns, kept{id, want, r.Conn()})
+					conns = append(conns, kept{id, want, r.Conn(), other(it.Dir) + fmt.Sprint(id)})
 					connsMu.Unlock()
 				}
 			}
@@ -369,6 +403,10 @@ func runRoute(t *testing.T, c spec.Case, e Em) {
 	}
 	for _, h := range handles {
 		h.Stop()
+	}
+	for _, h := range rawHandles {
+		h.CloseListener()
+		h.StopServer()
 	}
 	connsMu.Unlock()
 	within(20*time.Second, pr.close)
